@@ -30,7 +30,9 @@ GenuineCerts == {"genuine", "genuine_pkcs1issued", "genuine_sha384issued"}
 \* library (crypto/x509) refuses such a certificate before it looks at chain or time, so none of them is
 \* ever accepted; a genuine-root-issued one would satisfy the statement, the other two never do.
 CritExtCerts == {"genuine_critext", "self_signed_evil_critext", "evil_chain_critext"}
-Certs == GenuineCerts \cup {"absent", "garbage", "self_signed_evil", "evil_chain"} \cup CritExtCerts
+\* "webca_issued": the forger's key certified by a CA of the machine's system trust store (any public
+\* web CA): the caller's roots decide, never the machine's
+Certs == GenuineCerts \cup {"absent", "garbage", "self_signed_evil", "evil_chain", "webca_issued"} \cup CritExtCerts
 \* "emptyfile": the caller's root set is empty and given as a zero-length file to the CLI, while the
 \* default root is downloadable: the caller still trusts nothing
 Roots == {"nil", "empty", "emptyfile", "R", "foreign", "R_and_foreign"}
